@@ -95,11 +95,13 @@ def harness_cfg(c):
     if c["cls"] == "SimpleTaskPool":
         p = c["plan"]
         return {"cls": c["cls"], "size": c["size"],
-                "simple": {"imm": p["imm"], "onc": p["onc"], "ecb": p["ecb"], "ccb": p["ccb"], "bad": list(p["bad"]), "shape": 0}}
+                "simple": {"imm": p["imm"], "onc": p["onc"], "ecb": p["ecb"], "ccb": p["ccb"], "bad": list(p["bad"]), "shape": len(c["name"]) % 3}}
     reqs = []
-    for t in c["tpl"]:
+    for n, t in enumerate(c["tpl"]):
+        # the argument shape (no args / one positional / two positionals + a keyword) is invisible to the model
         reqs.append({"kind": t["kind"], "num": t["num"], "nc": t["nc"], "gname": t["gname"] or None, "imm": t["imm"],
-                     "onc": t["onc"], "ecb": t["ecb"], "ccb": t["ccb"], "bad": list(t["bad"]), "notcoro": t["notcoro"], "shape": 0})
+                     "onc": t["onc"], "ecb": t["ecb"], "ccb": t["ccb"], "bad": list(t["bad"]), "notcoro": t["notcoro"],
+                     "shape": (n + len(c["name"])) % 3})
     return {"cls": c["cls"], "size": c["size"], "reqs": reqs}
 
 
